@@ -387,12 +387,12 @@ func drawItem(rt *rapid.T) opItem {
 	case k < 18:
 		t := drawIntType(rt, "t")
 		it := opItem{Kind: "ibin", T: t.name(), Op: rapid.SampledFrom(intBinOps).Draw(rt, "op"), A: drawInt(rt, t, "a"), B: drawInt(rt, t, "b")}
-		it.Mode = rapid.SampledFrom([]string{"var", "var", "assign", "mixed", "const"}).Draw(rt, "mode")
+		it.Mode = rapid.SampledFrom([]string{"var", "dirty", "assign", "dirtyassign", "mixed", "const"}).Draw(rt, "mode")
 		return it
 	case k < 24:
 		t := drawIntType(rt, "t")
 		return opItem{Kind: "icmp", T: t.name(), Op: rapid.SampledFrom(cmpOps).Draw(rt, "op"), A: drawInt(rt, t, "a"), B: drawInt(rt, t, "b"),
-			Mode: rapid.SampledFrom([]string{"var", "mixed", "const"}).Draw(rt, "mode")}
+			Mode: rapid.SampledFrom([]string{"var", "dirty", "mixed", "const"}).Draw(rt, "mode")}
 	case k < 38:
 		t, ct := drawIntType(rt, "t"), drawIntType(rt, "ct")
 		it := opItem{Kind: "shift", T: t.name(), T2: ct.name(), Op: rapid.SampledFrom([]string{"<<", ">>"}).Draw(rt, "op"), A: drawInt(rt, t, "a")}
@@ -408,15 +408,15 @@ func drawItem(rt *rapid.T) opItem {
 			}
 		}
 		it.B = cv.String()
-		it.Mode = rapid.SampledFrom([]string{"var", "var", "assign", "mixed", "const"}).Draw(rt, "mode")
+		it.Mode = rapid.SampledFrom([]string{"var", "dirty", "assign", "dirtyassign", "mixed", "const"}).Draw(rt, "mode")
 		return it
 	case k < 44:
 		t := drawIntType(rt, "t")
 		return opItem{Kind: "iun", T: t.name(), Op: rapid.SampledFrom([]string{"-", "^", "+"}).Draw(rt, "op"), A: drawInt(rt, t, "a"),
-			Mode: rapid.SampledFrom([]string{"var", "var", "const"}).Draw(rt, "mode")}
+			Mode: rapid.SampledFrom([]string{"var", "dirty", "const"}).Draw(rt, "mode")}
 	case k < 52:
 		t, t2 := drawIntType(rt, "t"), drawIntType(rt, "t2")
-		return opItem{Kind: "iconv", T: t.name(), T2: t2.name(), A: drawInt(rt, t, "a"), Mode: rapid.SampledFrom([]string{"var", "var", "const"}).Draw(rt, "mode")}
+		return opItem{Kind: "iconv", T: t.name(), T2: t2.name(), A: drawInt(rt, t, "a"), Mode: rapid.SampledFrom([]string{"var", "dirty", "const"}).Draw(rt, "mode")}
 	case k < 57:
 		t := drawIntType(rt, "t")
 		return opItem{Kind: "i2f", T: t.name(), T2: rapid.SampledFrom([]string{"float64", "float32"}).Draw(rt, "ft"), A: drawInt(rt, t, "a")}
@@ -596,6 +596,17 @@ func parseBits(s string, bits int) uint64 {
 func f64Arg(bits string) string { return "math.Float64frombits(0x" + bits + ")" }
 func f32Arg(bits string) string { return "math.Float32frombits(0x" + bits + ")" }
 
+// dirty returns an int64 literal w such that T(w) == a although the bits of w
+// above T's width are the complement of a's sign/zero extension: the value
+// reaches the operator through a narrowing conversion (mode "dirty").
+func dirty(t intOps, a string) string {
+	b := t.toBits(a)
+	if t.bits() < 64 {
+		b ^= ^uint64(0) << uint(t.bits())
+	}
+	return "int64(" + strconv.FormatInt(int64(b), 10) + ")"
+}
+
 // build returns the expected output of the item (lines, each ending in \n) and
 // its Gno fragment. id makes top-level names unique.
 func (it opItem) build(id int) (want string, fr Frag, boundary bool) {
@@ -630,7 +641,16 @@ func (it opItem) build(id int) (want string, fr Frag, boundary bool) {
 		} else {
 			want = strconv.FormatBool(t.cmp(it.Op, it.A, it.B)) + "\n"
 		}
+		if mode == "dirtyassign" && it.Kind == "icmp" {
+			mode = "dirty"
+		}
 		switch mode {
+		case "dirty":
+			fr.Decl = fmt.Sprintf("func %s(aw, bw int64) %s { a, b := %s(aw), %s(bw); return a %s b }\n", fn, resT, it.T, it.T, it.Op)
+			fr.Body = "\t" + emitExpr(fmt.Sprintf("%s(%s, %s)", fn, dirty(t, it.A), dirty(t, it.B)))
+		case "dirtyassign":
+			fr.Decl = fmt.Sprintf("func %s(aw, bw int64) %s { a, b := %s(aw), %s(bw); a %s= b; return a }\n", fn, resT, it.T, it.T, it.Op)
+			fr.Body = "\t" + emitExpr(fmt.Sprintf("%s(%s, %s)", fn, dirty(t, it.A), dirty(t, it.B)))
 		case "var":
 			fr.Decl = fmt.Sprintf("func %s(a, b %s) %s { return a %s b }\n", fn, it.T, resT, it.Op)
 			fr.Body = "\t" + emitExpr(fmt.Sprintf("%s(%s, %s)", fn, t.lit(it.A), t.lit(it.B)))
@@ -675,6 +695,12 @@ func (it opItem) build(id int) (want string, fr Frag, boundary bool) {
 			}
 		}
 		switch mode {
+		case "dirty":
+			fr.Decl = fmt.Sprintf("func %s(aw, cw int64) %s { a, c := %s(aw), %s(cw); return a %s c }\n", fn, it.T, it.T, it.T2, it.Op)
+			fr.Body = "\t" + t.emit(fmt.Sprintf("%s(%s, %s)", fn, dirty(t, it.A), dirty(ct, it.B)))
+		case "dirtyassign":
+			fr.Decl = fmt.Sprintf("func %s(aw, cw int64) %s { a, c := %s(aw), %s(cw); a %s= c; return a }\n", fn, it.T, it.T, it.T2, it.Op)
+			fr.Body = "\t" + t.emit(fmt.Sprintf("%s(%s, %s)", fn, dirty(t, it.A), dirty(ct, it.B)))
 		case "var":
 			fr.Decl = fmt.Sprintf("func %s(a %s, c %s) %s { return a %s c }\n", fn, it.T, it.T2, it.T, it.Op)
 			fr.Body = "\t" + t.emit(fmt.Sprintf("%s(%s, %s)", fn, t.lit(it.A), ct.lit(it.B)))
@@ -704,6 +730,9 @@ func (it opItem) build(id int) (want string, fr Frag, boundary bool) {
 		if mode == "const" {
 			fr.Decl = fmt.Sprintf("const k%s = %s%s\n", fn, it.Op, t.lit(it.A))
 			fr.Body = "\t" + t.emit("k"+fn)
+		} else if mode == "dirty" {
+			fr.Decl = fmt.Sprintf("func %s(aw int64) %s { a := %s(aw); return %sa }\n", fn, it.T, it.T, it.Op)
+			fr.Body = "\t" + t.emit(fmt.Sprintf("%s(%s)", fn, dirty(t, it.A)))
 		} else {
 			fr.Decl = fmt.Sprintf("func %s(a %s) %s { return %sa }\n", fn, it.T, it.T, it.Op)
 			fr.Body = "\t" + t.emit(fmt.Sprintf("%s(%s)", fn, t.lit(it.A)))
@@ -721,6 +750,9 @@ func (it opItem) build(id int) (want string, fr Frag, boundary bool) {
 		if mode == "const" {
 			fr.Decl = fmt.Sprintf("const k%s = %s(%s)\n", fn, it.T2, t.lit(it.A))
 			fr.Body = "\t" + t2.emit("k"+fn)
+		} else if mode == "dirty" {
+			fr.Decl = fmt.Sprintf("func %s(aw int64) %s { a := %s(aw); return %s(a) }\n", fn, it.T2, it.T, it.T2)
+			fr.Body = "\t" + t2.emit(fmt.Sprintf("%s(%s)", fn, dirty(t, it.A)))
 		} else {
 			fr.Decl = fmt.Sprintf("func %s(a %s) %s { return %s(a) }\n", fn, it.T, it.T2, it.T2)
 			fr.Body = "\t" + t2.emit(fmt.Sprintf("%s(%s)", fn, t.lit(it.A)))
@@ -1050,6 +1082,12 @@ func opExec(ctx *vk.Ctx, c opCase) error {
 	}
 	for i := range frags {
 		if got[i] != wants[i] {
+			// exactly the recorded divergence: compound shift assignment whose count has a type
+			// other than uint and reached it through a narrowing conversion
+			if it := c.Items[i]; it.Kind == "shift" && it.Mode == "dirtyassign" && it.T2 != "uint" && it.T2 != "uint64" && it.T2 != "int64" && it.T2 != "int" &&
+				ctx.Known("shift-assign-count-not-converted-to-uint") {
+				continue
+			}
 			return fmt.Errorf("item %d %+v: Gno printed %q, Go computes %q\n--- gno source of the item\n%s%s", i, c.Items[i], got[i], wants[i], frags[i].Decl, frags[i].Body)
 		}
 	}
@@ -1060,7 +1098,7 @@ func opExec(ctx *vk.Ctx, c opCase) error {
 func TestC04_Operators(t *testing.T) {
 	vk.Run(t, vk.Spec[opCase]{
 		ID: "C04", Name: "TestC04_Operators",
-		Rule: "rapid: 1..16 operator items per program: integer + - * / % & | ^ &^, comparisons, shifts (count of any integer type: 0, width-1, width, large, negative), unary - ^, conversions between all 10 integer types, int<->float, float32/64 arithmetic, comparisons and literals, string concat/compare/len/index/slice/range/[]byte/[]rune/string(rune), untyped big constants; operands from boundary sets (0, ±1, min, max, 2^k±1) mixed with random; evaluated through parameters, compound assignment, literal right operand, or as a constant expression when Go accepts it; expected values computed by the harness's own Go code; non-trivial = at least one item has a boundary operand; distinct by case hash",
+		Rule: "rapid: 1..16 operator items per program: integer + - * / % & | ^ &^, comparisons, shifts (count of any integer type: 0, width-1, width, large, negative), unary - ^, conversions between all 10 integer types, int<->float, float32/64 arithmetic, comparisons and literals, string concat/compare/len/index/slice/range/[]byte/[]rune/string(rune), untyped big constants; operands from boundary sets (0, ±1, min, max, 2^k±1) mixed with random; evaluated through parameters, through parameters narrowed from int64 words with complemented high bits, compound assignment, literal right operand, or as a constant expression when Go accepts it; expected values computed by the harness's own Go code; non-trivial = at least one item has a boundary operand; distinct by case hash",
 		Draw: func(rt *rapid.T) opCase {
 			n := rapid.IntRange(1, 16).Draw(rt, "n")
 			c := opCase{}
